@@ -360,25 +360,27 @@ Proof.
   intros Rw. unfold try_restarted. destruct (get s w) as [a|] eqn:Ea; [|intros H; inversion H; subst; apply hs_refl].
   destruct (a_children a); [|intros H; inversion H; subst; apply hs_refl].
   destruct (a_st a) eqn:Est; try (intros H; inversion H; subst; apply hs_refl).
-  destruct (handle roles s w TT 0 snd) as [[s1 o1] p1] eqn:E1. unfold bind at 1. destruct p1.
-  - intros H; inversion H; subst. eapply hs_handle; exact E1.
+  destruct (provide s (a_tok a)) as [s0 inst] eqn:Ep.
+  assert (A0 : actors s0 = actors s) by (unfold provide in Ep; inversion Ep; subst; reflexivity).
+  assert (G0 : registry s0 = registry s) by (unfold provide in Ep; inversion Ep; subst; reflexivity).
+  assert (Ea0 : get s0 w = Some a) by (unfold get in *; rewrite A0; exact Ea).
+  assert (K0 : hs s s0) by (apply hs_same_actors; exact A0).
+  assert (Rw0 : regw w s0) by (eapply regw_keep_regsame; [apply keep_same_actors; exact A0|exact G0|exact Rw]).
+  destruct (handle roles s0 w TT 0 snd) as [[s1 o1] p1] eqn:E1. unfold bind at 1. destruct p1.
+  - intros H; inversion H; subst. eapply hs_trans; [exact K0|eapply hs_handle; exact E1].
   - destruct (handle roles s1 w TTS 0 snd) as [[s2 o2] p2] eqn:E2. unfold bind.
-    assert (K12 : hs s s2) by (eapply hs_trans; [eapply hs_handle; exact E1|eapply hs_handle; exact E2]).
+    assert (K12 : hs s s2) by (eapply hs_trans; [exact K0|]; eapply hs_trans; [eapply hs_handle; exact E1|eapply hs_handle; exact E2]).
     destruct p2; [intros H; inversion H; subst; exact K12|].
-    assert (R2 : regw w s2) by (eapply regw_handle; [exact E2|eapply regw_handle; [exact E1|exact Rw]]).
-    destruct (keep_handle roles _ _ _ _ _ _ _ _ E1 w a Ea) as (a1 & Ha1 & S1 & (I1 & _)).
+    assert (R2 : regw w s2) by (eapply regw_handle; [exact E2|eapply regw_handle; [exact E1|exact Rw0]]).
+    destruct (keep_handle roles _ _ _ _ _ _ _ _ E1 w a Ea0) as (a1 & Ha1 & S1 & (I1 & _)).
     destruct (keep_handle roles _ _ _ _ _ _ _ _ E2 w a1 Ha1) as (a2 & Ha2 & S2 & (I2 & _)).
-    destruct (provide s2 (a_tok a)) as [s3 inst] eqn:Ep.
-    assert (A3 : actors s3 = actors s2) by (unfold provide in Ep; inversion Ep; subst; reflexivity).
-    assert (G3 : registry s3 = registry s2) by (unfold provide in Ep; inversion Ep; subst; reflexivity).
-    assert (Ha3 : get s3 w = Some a2) by (unfold get in *; rewrite A3; exact Ha2).
-    set (s4 := upd_actor s3 w (fun b => w_st Alive (w_inst inst b))).
-    assert (Ha4 : get s4 w = Some (w_st Alive (w_inst inst a2))) by (exact (get_upd_actor_same s3 w (fun b => w_st Alive (w_inst inst b)) a2 Ha3)).
+    set (s4 := upd_actor s2 w (fun b => w_st Alive (w_inst inst b))).
+    assert (Ha4 : get s4 w = Some (w_st Alive (w_inst inst a2))) by (exact (get_upd_actor_same s2 w (fun b => w_st Alive (w_inst inst b)) a2 Ha2)).
     assert (L4 : lookup (a_tok a) (registry s4) = Some w).
-    { unfold s4. rewrite regsame_upd_actor, G3. destruct R2 as (b & Hb & Hl). rewrite Ha2 in Hb. inversion Hb; subst b. rewrite I2, I1 in Hl. exact Hl. }
+    { unfold s4. rewrite regsame_upd_actor. destruct R2 as (b & Hb & Hl). rewrite Ha2 in Hb. inversion Hb; subst b. rewrite I2, I1 in Hl. exact Hl. }
     match goal with |- context [start_instance ?r ?x ?y ?z ?w0] => destruct (start_instance r x y z w0) as [[s9 o9] p9] eqn:E9 end.
     intros H; inversion H; subst s' o p.
-    eapply hs_trans; [exact K12|]. eapply hs_trans; [apply hs_same_actors; exact A3|].
+    eapply hs_trans; [exact K12|].
     apply hs_trans with (s2 := s4); [unfold s4; apply hs_upd_actor; ks|].
     eapply hs_trans; [eapply hs_resume; [exact L4|exact Ha4|cbn [a_st w_st]; discriminate]|].
     eapply hs_start_instance; exact E9.
@@ -606,9 +608,10 @@ Proof.
   unfold try_restarted. destruct (get s u) as [a|]; [|intros H; inversion H; subst; apply notp_nil].
   destruct (a_children a); [|intros H; inversion H; subst; apply notp_nil].
   destruct (a_st a); try (intros H; inversion H; subst; apply notp_nil).
+  destruct (provide s (a_tok a)) as [s0 inst].
   apply notp_bind; [intros s1 o1 p1 E; eapply notp_handle; [|exact E]; ntp|].
   intros s1 s2 o2 p2. apply notp_bind; [intros sa oa pa E; eapply notp_handle; [|exact E]; ntp|].
-  intros sa sb ob pb. destruct (provide sa (a_tok a)) as [s3 inst]. apply notp_start_instance.
+  intros sa sb ob pb. apply notp_start_instance.
 Qed.
 Lemma notp_apply_directive s u r d snd s' o p : apply_directive roles s u r d snd = (s', o, p) -> notp o.
 Proof.
